@@ -210,6 +210,7 @@ def report(pid, tier, seed, mod, units, results, t0, write=True):
         with open(path, 'w') as f: json.dump(rec, f, indent=1, default=str)
         lines.append('VIOLATION property=%s replay=%s%s' % (pid, path, suffix))
     if os.environ.get('VERIF_DEBUG'):
+        for n_, r_ in sorted(results.items(), key=lambda kv: -(kv[1].get('wall_s') or 0))[:8]: print('UNIT-TIME %.1fs %s' % (r_.get('wall_s') or -1, n_))
         for o in sorted(obls, key=lambda o: -o.get('time_s', 0))[:25]: print('TIME %.1fs %s %s' % (o.get('time_s', 0), o['name'], o['status']))
     for o in opens:
         print('OPEN obligation=%s (%s)' % (o['name'], str(o.get('detail', ''))[:160]))
